@@ -12,6 +12,9 @@ import Wharf.Model.Lru
 import Wharf.Model.Patch
 import Wharf.Model.Rediff
 import Wharf.Model.Wire
+import Wharf.Model.FS
+import Wharf.Model.TreeValidate
+import Wharf.Model.SafeKeeper
 
 open Wharf Wharf.Util
 
@@ -359,6 +362,68 @@ def doC13Parse (args : List String) : IO String := do
     | .panic p => return s!"panic {p}"
   | _ => return "bad-op"
 
+def splitPath (s : String) : FS.Path := (s.splitOn "/").filter (· != "")
+
+/-- listing file: `d path` | `f path tok` | `l path dest` -/
+def readListing (file : String) : IO (List (String × FS.Path × FS.Node)) := do
+  let txt ← IO.FS.readFile file
+  let mut out : Array (String × FS.Path × FS.Node) := #[]
+  for l in txt.splitOn "\n" do
+    match l.trimAscii.toString.splitOn " " with
+    | ["d", p] => out := out.push ("d", splitPath p, .dir)
+    | ["f", p, tok] => out := out.push ("f", splitPath p, .file (← readContent tok).toList)
+    | ["l", p, dest] => out := out.push ("l", splitPath p, .symlink dest)
+    | _ => pure ()
+  return out.toList
+
+def treeOfListing (l : List (String × FS.Path × FS.Node)) : FS.Tree := { entries := l.map fun (_, p, n) => (p, n) }
+
+def signedOfListing (l : List (String × FS.Path × FS.Node)) : TreeValidate.Signed :=
+  { dirs := l.filterMap fun (k, p, _) => if k == "d" then some p else none
+    files := l.filterMap fun (_, p, n) => match n with | .file d => some (p, d) | _ => none
+    symlinks := l.filterMap fun (_, p, n) => match n with | .symlink d => some (p, d) | _ => none }
+
+def woundKey (w : Validate.Wound) : String :=
+  let k := match w.kind with | .file => "F" | .closedFile => "H" | .dir => "D" | .symlink => "L"
+  s!"{k} {w.index} {w.start} {w.stop}"
+
+/-- `validate <bs> <maxSize> <signed listing> <disk listing>`: sorted real wounds or `err` -/
+def doValidate (args : List String) : IO String := do
+  match args with
+  | [bsS, mxS, sf, df] =>
+    let s := signedOfListing (← readListing sf)
+    let t := treeOfListing (← readListing df)
+    match TreeValidate.validate (parseNat bsS) (parseNat mxS) s t with
+    | .ok ws =>
+      let keys := ((Validate.realWounds ws).map woundKey).mergeSort (fun a b => decide (a ≤ b))
+      return "ok " ++ ";".intercalate keys
+    | .err _ => return "err"
+    | .panic p => return s!"panic {p}"
+  | _ => return "bad-op"
+
+/-- `<n> (path signedTok diskTok|MISSING)*` -/
+def readSkFiles : Nat → List String → IO (List (List Byte × Option (List Byte)))
+  | 0, _ => return []
+  | n + 1, _ :: st :: dt :: rest => do
+    let s ← readContent st
+    let d ← if dt == "MISSING" then pure none else do pure (some (← readContent dt).toList)
+    let more ← readSkFiles n rest
+    return (s.toList, d) :: more
+  | _, _ => return []
+
+/-- `patchsk <bs> <msgfile> <newsizes csv> <nOld> (path signedTok diskTok|MISSING)*` -/
+def doPatchSk (args : List String) : IO String := do
+  match args with
+  | bsS :: mf :: newS :: nOldS :: rest =>
+    let msgs ← readMsgs mf
+    let fs ← readSkFiles (parseNat nOldS) rest
+    let signed := (fs.map (·.1)).toArray
+    let disk := (fs.map (·.2)).toArray
+    let E : Patch.Env := { bs := parseNat bsS, oldSizes := signed.map (·.length), newSizes := (csvNats newS).toArray,
+                           pool := SafeKeeper.skPool (parseNat bsS) signed disk, whitelist := none }
+    return showOutcomeRes (Patch.patch E msgs)
+  | _ => return "bad-op"
+
 def dispatch (line : String) : IO String := do
   match line.trimAscii.toString.splitOn " " with
   | "c11" :: args => doC11 args
@@ -369,6 +434,8 @@ def dispatch (line : String) : IO String := do
   | "patch" :: args => doPatch args
   | "hashinfo" :: args => doHashInfo args
   | "c13" :: args => doC13 args
+  | "validate" :: args => doValidate args
+  | "patchsk" :: args => doPatchSk args
   | "c13parse" :: args => doC13Parse args
   | "analyze" :: args => doAnalyze args
   | "optimize" :: args => doOptimize args
